@@ -1,0 +1,17 @@
+//go:build verif
+
+// Contracts for the deductive verifier in /verif (comment-only file; compiled out
+// unless the build tag `verif` is set, and even then contains no executable code).
+package v1
+
+// ---- no request can crash the server (property C18): zero-annotation no-panic obligations
+// (nil dereference, index, slice, type assertion) of the v1 handlers ----
+//@ func (*SemaDBHandlers).HandleListCollections
+//@   property C18
+//@   safety nil -overflow
+//@   loop 1 invariant rangeindex >= -1 && rangeindex < len(collections) && len(colItems) == len(collections)
+
+//@ func (*SemaDBHandlers).HandleGetCollection
+//@   property C18
+//@   safety nil -overflow -typeassert
+//@   loop 1 invariant rangeindex >= -1 && rangeindex < len(shards) && len(shardItems) == len(shards)
